@@ -23,7 +23,10 @@ type c07Writer struct {
 	hdrWrites int
 }
 
-func (w *c07Writer) WriteHeader(c int) { w.hdrWrites++; w.ResponseRecorder.WriteHeader(c) }
+func (w *c07Writer) WriteHeader(c int) {
+	w.ResponseRecorder.WriteHeader(c) // net/http panics on an invalid code before anything is written
+	w.hdrWrites++
+}
 func (w *c07Writer) Write(b []byte) (int, error) {
 	if w.hdrWrites == 0 {
 		w.hdrWrites++ // implicit 200
@@ -128,10 +131,25 @@ func genC07(rng *rand.Rand, n int, emit func(Case), dist map[string]int) {
 			esx = L(I(0), S(panicText))
 			errText = panicText
 		}
+		invalidStatus, invalidSet := 0, false
+		if mode >= 3 && rng.Intn(6) == 0 {
+			// the handler passes an invalid status to a response helper: net/http panics inside WriteHeader
+			invalidStatus = []int{0, 1000, 99}[rng.Intn(3)]
+			invalidSet = true
+			panicText = fmt.Sprintf("invalid WriteHeader code %d", invalidStatus)
+			panicVal = nil
+			esx = L(I(0), S(panicText))
+			errText = panicText
+			commitBefore = 0
+			mode = 4
+		}
 		viaMiddleware := mode <= 2 && rng.Intn(3) == 0
 		h := func(c echo.Context) error {
 			if commitBefore != 0 {
 				c.String(commitBefore, "partial")
+			}
+			if invalidSet {
+				return c.String(invalidStatus, "never sent")
 			}
 			if panicVal != nil {
 				panic(panicVal)
@@ -211,7 +229,7 @@ func genC07(rng *rand.Rand, n int, emit func(Case), dist map[string]int) {
 		ok, why := true, ""
 		// reference: effective code
 		wantCode := 500
-		if he, isHE := errv.(*echo.HTTPError); isHE && panicVal == nil || (mode == 3 && panicVal == error(errv)) && func() bool { _, x := errv.(*echo.HTTPError); return x }() {
+		if he, isHE := errv.(*echo.HTTPError); isHE && panicVal == nil && !invalidSet || (mode == 3 && panicVal == error(errv)) && func() bool { _, x := errv.(*echo.HTTPError); return x }() {
 			_ = he
 			he2 := errv.(*echo.HTTPError)
 			wantCode = he2.Code
